@@ -38,6 +38,7 @@ typedef struct {
     bool v2;                    /* DATA_PAGE_V2 */
     int level_encoding;         /* 0/ENC_RLE default; ENC_BIT_PACKED for the deprecated encoding */
     bool omit_num_children_zero;/* unused */
+    unsigned plain_page_mask;   /* dictionary chunks only: bit p set => data page p is written PLAIN instead of dictionary-encoded (the "dictionary fallback" of other writers, in any order) */
     bool absent_levels_bit_packed; /* announce the encoding of a level the column does not have (max level 0) as BIT_PACKED, as parquet-mr does; no bytes are stored for such a level */
 } ref_chunk_layout;
 
